@@ -210,7 +210,23 @@ def slice_key(shape, idx):
     return ("slice", idx.start, idx.stop, idx.step)
 
 
+class BoolList(list):
+    """a python list of booleans used as an index: equal only to a list of BOOLEANS (python's True == 1 would equate a mask with row numbers)"""
+
+    def __eq__(self, o):
+        return isinstance(o, list) and len(o) == len(self) and all(isinstance(b, bool) and a is b for a, b in zip(self, o))
+
+    def __ne__(self, o):
+        return not self.__eq__(o)
+
+    __hash__ = None
+
+
 def key_of(idx, shape=None):
+    if isinstance(idx, RawTok) and isinstance(idx.origin, tuple) and len(idx.origin) == 2 and idx.origin[0] == "list" and isinstance(idx.origin[1], tuple):
+        # numpy.asarray(<python list>) used as an index selects what the list itself selects (a list of booleans is a mask)
+        vals = list(idx.origin[1])
+        return BoolList(vals) if vals and all(isinstance(b, bool) for b in vals) else vals
     if isinstance(idx, (RawTok, ArrTok)):
         return intern(idx.origin)
     if isinstance(idx, slice):
@@ -569,12 +585,23 @@ def tok_origin(x):
     return x
 
 
+def _dtname(d):
+    """printable name of a dtype argument (a numpy dtype model, a python type, the interpreter's marker of a python type)"""
+    data = getattr(d, "data", None)
+    if data and isinstance(data[0], type):
+        return data[0].__name__
+    return getattr(d, "name", getattr(d, "__name__", d))
+
+
 def _np_asarray(x, dtype=None, *a, **k):
     """np.asarray: the array itself unless a cast is needed (a cast allocates)"""
     if isinstance(x, RawTok):
         if dtype is None or repr(dtype) == repr(x.dtype) or getattr(dtype, "name", dtype) == getattr(x.dtype, "name", None):
             return x
         return x.astype(dtype)
+    if isinstance(x, (list, tuple)) and dtype is not None and x and all(isinstance(e, bool) for e in x) and _dtname(dtype) not in ("bool", "bool_"):
+        # a MASK written as a python list, cast to numbers: [True, False, True] becomes the row numbers [1, 0, 1] - another selection
+        return RawTok(("booleans cast to %s" % _dtname(dtype), tuple(x)), (len(x),))
     if isinstance(x, (int, float, list, tuple)) or x is None:
         return x
     if isinstance(x, Model) and "ndarray" in getattr(x, "kinds", ()):
